@@ -214,3 +214,158 @@ Example C11_nonvacuous_cq :
   option_map clog (cdispatch_all repaired P (cboot 3 2 0 10 L pre)) = Some [(0, 5); (3, 5); (1, 5); (1, 5)] /\
   option_map (fun a => isort (cremaining (cfes a))) (cdispatch_all repaired P (cboot 3 2 0 10 L pre)) = Some [(7, 4); (9, 2)].
 Proof. vm_compute. split; reflexivity. Qed.
+
+
+(* ===========================================================================
+   C11 for the runtime over ANY future event set.  [E : evset]
+   (coq/Runtime/EvSet.v) packages new / add / peek_time / fetch_next / len with
+   six facts about them; [orc] is the oracle of a backend whose order among
+   equal timestamps is unspecified (dispatch number -> hint; deterministic
+   backends have hint = unit); the ev_* functions are the runtime of
+   coq/Runtime/Generic.v with E's operations plugged in (coq/Runtime/EvRuntime.v).
+   Instances: the specification (spec_evset), the calendar queue for every
+   n, t >= 1 (cq_evset n t), the BinaryHeap backend for every oracle (heap_evset).
+   Proofs: coq/Runtime/GenericProps.v, GenericPrefix.v. *)
+From DesVerif Require Import Runtime.Generic Runtime.EvSet Runtime.GenericProps Runtime.GenericPrefix Runtime.GenericStep
+  Runtime.EvRuntime Runtime.Instances Runtime.HeapSet Runtime.HeapRt Runtime.HeapSetProps.
+
+Theorem C11_any_event_set_limited_log_is_longest_admissible_prefix :
+  forall (E : evset) (orc : N -> eHint E) (P : prog) (S B : N) (pre : list (N * N)) (L : lim),
+  exists u a,
+    ev_dispatch_all E orc P (ev_boot E S B LNone pre) = Some u /\
+    ev_dispatch_all E orc P (ev_boot E S B L pre) = Some a /\
+    ev_log E a = lprefix L 0 (ev_log E u).
+Proof. exact g_limited_log. Qed.
+Print Assumptions C11_any_event_set_limited_log_is_longest_admissible_prefix.
+
+Theorem C11_any_event_set_nothing_lost :
+  forall (E : evset) (orc : N -> eHint E) (P : prog) (S B : N) (pre : list (N * N)) (L : lim) (a : ev_rt E),
+  ev_dispatch_all E orc P (ev_boot E S B L pre) = Some a ->
+  Permutation (accepted (ev_adds E a)) (handled (ev_log E a) ++ isort (ev_remaining E orc a)) /\
+  ple_sorted (isort (ev_remaining E orc a)) /\
+  ev_finish E orc a = OFinal (N.of_nat (length (ev_log E a))) (last (map snd (ev_log E a)) S) (ev_log E a) (ev_adds E a)
+                             (isort (ev_remaining E orc a)) /\
+  StronglySorted N.le (map snd (ev_log E a)).
+Proof. exact g_nothing_lost. Qed.
+Print Assumptions C11_any_event_set_nothing_lost.
+
+Theorem C11_any_event_set_event_count_limit :
+  forall (E : evset) (orc : N -> eHint E) (P : prog) (S B : N) (pre : list (N * N)) (n : N),
+  exists u a, ev_dispatch_all E orc P (ev_boot E S B LNone pre) = Some u /\
+              ev_dispatch_all E orc P (ev_boot E S B (LCount n) pre) = Some a /\
+              ev_log E a = firstn (N.to_nat n) (ev_log E u).
+Proof. exact g_count_limit. Qed.
+Print Assumptions C11_any_event_set_event_count_limit.
+
+Theorem C11_any_event_set_time_limit :
+  forall (E : evset) (orc : N -> eHint E) (P : prog) (S B : N) (pre : list (N * N)) (T : N),
+  exists u a, ev_dispatch_all E orc P (ev_boot E S B LNone pre) = Some u /\
+              ev_dispatch_all E orc P (ev_boot E S B (LTime T) pre) = Some a /\
+              ev_log E a = filter (fun e => snd e <=? T) (ev_log E u).
+Proof. exact g_time_limit. Qed.
+Print Assumptions C11_any_event_set_time_limit.
+
+Theorem C11_any_event_set_and_or :
+  forall (E : evset) (orc : N -> eHint E) (P : prog) (S B : N) (pre : list (N * N)) (la lb : lim),
+  exists a b o n,
+    ev_dispatch_all E orc P (ev_boot E S B la pre) = Some a /\ ev_dispatch_all E orc P (ev_boot E S B lb pre) = Some b /\
+    ev_dispatch_all E orc P (ev_boot E S B (LOr la lb) pre) = Some o /\
+    ev_dispatch_all E orc P (ev_boot E S B (LAnd la lb) pre) = Some n /\
+    length (ev_log E o) = Nat.min (length (ev_log E a)) (length (ev_log E b)) /\
+    length (ev_log E n) = Nat.max (length (ev_log E a)) (length (ev_log E b)).
+Proof. exact g_and_or. Qed.
+Print Assumptions C11_any_event_set_and_or.
+
+(* every loop terminates: no record of a block (build, pre-run adds, schedule, dispatch_all, finish) is the
+   out-of-fuel record.  (The limit algebra and the Builder composition, C11_limit_algebra and
+   C11_builder_composes_with_or above, do not mention the event set at all.) *)
+Theorem C11_any_event_set_run_total :
+  forall (E : evset) (orc : N -> eHint E) (sc : script) (L : lim) (sched : list sop), ~ In OFuel (ev_run_block E orc sc L sched).
+Proof. exact g_run_total. Qed.
+Print Assumptions C11_any_event_set_run_total.
+
+(* ---- instances ---- *)
+(* (a), (b): the specification and the calendar queue as event sets; e.g. the main theorem *)
+Theorem C11_limited_log_over_spec_event_set :
+  forall (P : prog) (S B : N) (pre : list (N * N)) (L : lim),
+  exists u a,
+    ev_dispatch_all spec_evset (fun _ => tt) P (ev_boot spec_evset S B LNone pre) = Some u /\
+    ev_dispatch_all spec_evset (fun _ => tt) P (ev_boot spec_evset S B L pre) = Some a /\
+    ev_log spec_evset a = lprefix L 0 (ev_log spec_evset u).
+Proof. exact (g_limited_log spec_evset (fun _ => tt)). Qed.
+Print Assumptions C11_limited_log_over_spec_event_set.
+
+Theorem C11_limited_log_over_calendar_queue_event_set :
+  forall (n t : N) (Hn : n <> 0) (Ht : t <> 0) (P : prog) (S B : N) (pre : list (N * N)) (L : lim),
+  let E := cq_evset n t Hn Ht in
+  exists u a,
+    ev_dispatch_all E (fun _ => tt) P (ev_boot E S B LNone pre) = Some u /\
+    ev_dispatch_all E (fun _ => tt) P (ev_boot E S B L pre) = Some a /\
+    ev_log E a = lprefix L 0 (ev_log E u).
+Proof. intros n t Hn Ht. exact (g_limited_log (cq_evset n t Hn Ht) (fun _ => tt)). Qed.
+Print Assumptions C11_limited_log_over_calendar_queue_event_set.
+
+(* (c) the BinaryHeap backend (des built without `cqueue`), EVERY oracle; spelled with the
+   functions of coq/Runtime/HeapRt.v, which the extracted runner of `check.py C01 --part heap` executes *)
+Theorem C11_limited_log_is_longest_admissible_prefix_heap :
+  forall (orc : N -> hint) (P : prog) (S B : N) (pre : list (N * N)) (L : lim),
+  exists u a,
+    hdispatch_all orc P (hboot S B LNone pre) = Some u /\
+    hdispatch_all orc P (hboot S B L pre) = Some a /\
+    glog hs a = lprefix L 0 (glog hs u).
+Proof. exact (g_limited_log heap_evset). Qed.
+Print Assumptions C11_limited_log_is_longest_admissible_prefix_heap.
+
+Theorem C11_nothing_lost_heap :
+  forall (orc : N -> hint) (P : prog) (S B : N) (pre : list (N * N)) (L : lim) (a : hrt),
+  hdispatch_all orc P (hboot S B L pre) = Some a ->
+  let rem := gremaining hs hint hp_fetch hp_len orc a in
+  Permutation (accepted (gadds hs a)) (handled (glog hs a) ++ isort rem) /\
+  ple_sorted (isort rem) /\
+  gfinish hs hint hp_fetch hp_len orc a =
+    OFinal (N.of_nat (length (glog hs a))) (last (map snd (glog hs a)) S) (glog hs a) (gadds hs a) (isort rem) /\
+  StronglySorted N.le (map snd (glog hs a)).
+Proof. exact (g_nothing_lost heap_evset). Qed.
+Print Assumptions C11_nothing_lost_heap.
+
+Theorem C11_event_count_limit_heap :
+  forall (orc : N -> hint) (P : prog) (S B : N) (pre : list (N * N)) (n : N),
+  exists u a, hdispatch_all orc P (hboot S B LNone pre) = Some u /\
+              hdispatch_all orc P (hboot S B (LCount n) pre) = Some a /\
+              glog hs a = firstn (N.to_nat n) (glog hs u).
+Proof. exact (g_count_limit heap_evset). Qed.
+Print Assumptions C11_event_count_limit_heap.
+
+Theorem C11_time_limit_heap :
+  forall (orc : N -> hint) (P : prog) (S B : N) (pre : list (N * N)) (T : N),
+  exists u a, hdispatch_all orc P (hboot S B LNone pre) = Some u /\
+              hdispatch_all orc P (hboot S B (LTime T) pre) = Some a /\
+              glog hs a = filter (fun e => snd e <=? T) (glog hs u).
+Proof. exact (g_time_limit heap_evset). Qed.
+Print Assumptions C11_time_limit_heap.
+
+Theorem C11_and_or_heap :
+  forall (orc : N -> hint) (P : prog) (S B : N) (pre : list (N * N)) (la lb : lim),
+  exists a b o n,
+    hdispatch_all orc P (hboot S B la pre) = Some a /\ hdispatch_all orc P (hboot S B lb pre) = Some b /\
+    hdispatch_all orc P (hboot S B (LOr la lb) pre) = Some o /\ hdispatch_all orc P (hboot S B (LAnd la lb) pre) = Some n /\
+    length (glog hs o) = Nat.min (length (glog hs a)) (length (glog hs b)) /\
+    length (glog hs n) = Nat.max (length (glog hs a)) (length (glog hs b)).
+Proof. exact (g_and_or heap_evset). Qed.
+Print Assumptions C11_and_or_heap.
+
+Theorem C11_run_total_heap :
+  forall (orc : N -> hint) (sc : script) (L : lim) (sched : list sop), ~ In OFuel (fst (hrun_block orc sc L sched)).
+Proof. exact (g_run_total heap_evset). Qed.
+Print Assumptions C11_run_total_heap.
+
+(* Non-vacuity over the heap backend, oracle "last candidate": the tie group at 5 is dispatched 0, 3 (zero queue),
+   then the two entries labelled 1; the limit stops after it and keeps (7,4), (9,2). *)
+Example C11_nonvacuous_heap :
+  let P := [[(0, 0, 3); (0, 2, 4)]] in
+  let pre := [(5, 0); (5, 1); (9, 2); (5, 1)] in
+  let L := LOr (LAnd (LCount 2) (LTime 6)) (LTime 8) in
+  let orc := fun (_ : N) (cs : list (N * N)) => pred (length cs) in
+  option_map (glog hs) (hdispatch_all orc P (hboot 0 10 L pre)) = Some [(1, 5); (1, 5); (0, 5); (3, 5)] /\
+  option_map (fun a => isort (gremaining hs hint hp_fetch hp_len orc a)) (hdispatch_all orc P (hboot 0 10 L pre)) = Some [(7, 4); (9, 2)].
+Proof. vm_compute. split; reflexivity. Qed.
